@@ -1,5 +1,7 @@
 import Grass.Scope
+import Grass.Eval
 import GrassProofs.Lemmas.Scope
+import GrassProofs.Lemmas.Eval
 /-
   C03 — SassScript evaluation follows the language scoping and control-flow rules.
 
@@ -281,8 +283,8 @@ theorem step_sim (w : World) (op : Op) (hi : Inv w) :
   | closure => simp [step, stepSpec, erase, Scopes.newClosure]
   | call k =>
     simp only [step, stepSpec, erase, List.getElem?_map]
-    cases w.closures[k]? <;> simp [erase, Scopes.newClosure]
-  | imp => simp [step, stepSpec, Scopes.newClosure]
+    cases w.closures[k]? <;> simp [Scopes.newClosure]
+  | imp => simp [step, stepSpec, erase, Scopes.newClosure]
   | ret =>
     simp only [step, stepSpec, erase]
     cases hs : w.saved <;> simp [hs, Cfg.now]
@@ -524,3 +526,219 @@ theorem C03_asFound_inv_broken :
   decide
 
 end Grass.Scope
+
+/-!
+  Part 2: THE REFERENCE EVALUATOR (Grass/Eval.lean).  The property's main sentence — grass computes
+  the values the specification assigns — is the program correspondence of tools/props/c03.py, in
+  which `evalProgram` is the specification.  The theorems below are about that specification:
+  results do not depend on the amount of fuel once evaluation finishes, `@for` visits exactly the
+  specified range, `and`/`or` do not evaluate their right operand when the left decides, and the
+  arity rules are exactly the conditions under which binding succeeds.
+
+  `C03_full` (below) stays unproved: it would need a model of the whole of grass's visitor.
+-/
+namespace Grass.Eval
+
+/-- The full property for the modelled core, for reference (NOT proved; tied by correspondence):
+    for every program of the core language on which the specification finishes, real grass emits
+    exactly the specification's declarations and log messages.  `grassObservation` stands for the
+    real compiler and cannot be defined in Lean. -/
+def C03_full (grassObservation : List Stmt → Option (Array (String × String × Option String) × Array (String × String))) : Prop :=
+  ∀ (prog : List Stmt) (fuel : Nat) (st : St), evalProgram Dev.spec fuel prog = .finished st →
+    grassObservation prog = some (st.css, st.log)
+
+/-! ### fuel -/
+
+theorem run_block_mono (n k : Nat) (ctx : Ctx) (ss : List Stmt) (st : St)
+    (h : (run n).block ctx ss st ≠ .oof) : (run (n + k)).block ctx ss st = (run n).block ctx ss st := by
+  rcases (run_le_add n k).block ctx ss st with e | e
+  · exact absurd e h
+  · exact e.symm
+
+theorem run_expr_mono (n k : Nat) (ctx : Ctx) (e : Expr) (st : St)
+    (h : (run n).expr ctx e st ≠ .oof) : (run (n + k)).expr ctx e st = (run n).expr ctx e st := by
+  rcases (run_le_add n k).expr ctx e st with e' | e'
+  · exact absurd e' h
+  · exact e'.symm
+
+def Outcome.ranOut : Outcome → Bool
+  | .outOfFuel => true
+  | _ => false
+
+/-- **Fuel monotonicity**: once a program's evaluation finishes (normally or with an error) with
+    some amount of fuel, every larger amount gives the same declarations, log and outcome. -/
+theorem C03_fuel_mono (dev : Dev) (n k : Nat) (prog : List Stmt)
+    (h : (evalProgram dev n prog).ranOut = false) : evalProgram dev (n + k) prog = evalProgram dev n prog := by
+  unfold evalProgram at *
+  have hm := run_block_mono n k (Ctx.root dev) prog St.init
+  cases hr : (run n).block (Ctx.root dev) prog St.init with
+  | oof => rw [hr] at h; simp [Outcome.ranOut] at h
+  | ok a st => rw [hm (by rw [hr]; intro c; cases c), hr]
+  | err e st => rw [hm (by rw [hr]; intro c; cases c), hr]
+
+example : (evalProgram Dev.spec 3 [.debug (.lit (.bool true))]).ranOut = false := by
+  decide
+
+/-! ### and / or -/
+
+/-- `and`: the left operand is evaluated first; the right one only if the left is truthy. -/
+theorem C03_and_unfold (n : Nat) (ctx : Ctx) (a b : Expr) (st : St) :
+    (run (n + 1)).expr ctx (.bin .and a b) st =
+      match (run n).expr ctx a st with
+      | .ok x st' => if x.truthy then (run n).expr ctx b st' else .ok x st'
+      | .err e st' => .err e st'
+      | .oof => .oof := by
+  show M.bind ((run n).expr ctx a) _ st = _
+  unfold M.bind
+  cases (run n).expr ctx a st with
+  | ok x st' => simp only []; split <;> rfl
+  | err e st' => rfl
+  | oof => rfl
+
+theorem C03_or_unfold (n : Nat) (ctx : Ctx) (a b : Expr) (st : St) :
+    (run (n + 1)).expr ctx (.bin .or a b) st =
+      match (run n).expr ctx a st with
+      | .ok x st' => if x.truthy then .ok x st' else (run n).expr ctx b st'
+      | .err e st' => .err e st'
+      | .oof => .oof := by
+  show M.bind ((run n).expr ctx a) _ st = _
+  unfold M.bind
+  cases (run n).expr ctx a st with
+  | ok x st' => simp only []; split <;> rfl
+  | err e st' => rfl
+  | oof => rfl
+
+/-- **Short circuit**: when the left operand of `and` is falsey (of `or`: truthy) the result is the
+    left operand's value and state whatever the right operand is — it is not evaluated, so it can
+    neither fail, nor log, nor assign. -/
+theorem C03_and_or_short_circuit (n : Nat) (ctx : Ctx) (a b : Expr) (st st' : St) (x : Value)
+    (ha : (run n).expr ctx a st = .ok x st') :
+    (x.truthy = false → (run (n + 1)).expr ctx (.bin .and a b) st = .ok x st') ∧
+    (x.truthy = true → (run (n + 1)).expr ctx (.bin .or a b) st = .ok x st') := by
+  constructor
+  · intro hx; rw [C03_and_unfold, ha]; simp [hx]
+  · intro hx; rw [C03_or_unfold, ha]; simp [hx]
+
+example : (run 3).expr (Ctx.root Dev.spec) (.bin .and (.lit (.bool false)) (.var "undefined")) St.init
+    = .ok (.bool false) St.init := by
+  have := (C03_and_or_short_circuit 2 (Ctx.root Dev.spec) (.lit (.bool false)) (.var "undefined")
+    St.init St.init (.bool false) rfl).1 rfl
+  exact this
+
+/-! ### @for -/
+
+/-- **@for range**: `forRange lo hi inclusive` has the specified length and its `i`-th element is
+    `lo ± i` (ascending when `lo ≤ hi`, descending otherwise). -/
+theorem C03_for_range (lo hi : Int) (inclusive : Bool) :
+    (forRange lo hi inclusive).length =
+        (if lo ≤ hi then hi - lo else lo - hi).toNat + (if inclusive then 1 else 0) ∧
+    ∀ i, i < (forRange lo hi inclusive).length →
+      (forRange lo hi inclusive)[i]? = some (if lo ≤ hi then lo + (i : Int) else lo - (i : Int)) := by
+  unfold forRange
+  constructor
+  · simp
+  · intro i hi'
+    simp only [List.length_map, List.length_range] at hi'
+    simp [List.getElem?_map, List.getElem?_range hi']
+
+/-- Membership form: `to` excludes the end point, `through` includes it, in both directions. -/
+theorem C03_for_range_mem (lo hi x : Int) (inclusive : Bool) :
+    x ∈ forRange lo hi inclusive ↔
+      (lo ≤ hi ∧ lo ≤ x ∧ (if inclusive then x ≤ hi else x < hi)) ∨
+      (hi < lo ∧ x ≤ lo ∧ (if inclusive then hi ≤ x else hi < x)) := by
+  unfold forRange
+  simp only [List.mem_map, List.mem_range]
+  constructor
+  · rintro ⟨i, hi', rfl⟩
+    by_cases h : lo ≤ hi
+    · left; simp only [h, if_true] at hi' ⊢
+      cases inclusive <;> simp at hi' ⊢ <;> omega
+    · right; simp only [h, if_false] at hi' ⊢
+      cases inclusive <;> simp at hi' ⊢ <;> omega
+  · rintro (⟨h, h1, h2⟩ | ⟨h, h1, h2⟩)
+    · refine ⟨(x - lo).toNat, ?_, ?_⟩
+      · simp only [h, if_true]; cases inclusive <;> simp at h2 ⊢ <;> omega
+      · simp only [h, if_true]; omega
+    · have h' : ¬ lo ≤ hi := by omega
+      refine ⟨(lo - x).toNat, ?_, ?_⟩
+      · simp only [h', if_false]; cases inclusive <;> simp at h2 ⊢ <;> omega
+      · simp only [h', if_false]; omega
+
+example : forRange 1 4 false = [1, 2, 3] ∧ forRange 1 4 true = [1, 2, 3, 4] ∧
+    forRange 3 0 false = [3, 2, 1] ∧ forRange 3 0 true = [3, 2, 1, 0] ∧ forRange 2 2 false = [] ∧
+    forRange 2 2 true = [2] := by decide
+
+/-- grass's loop (visitor.rs:1841-1897): `direction = if from > to {-1} else {1}`, `to += direction`
+    for `through`, then `while i != to { body(i); i += direction }`; `n` bounds the iterations. -/
+def grassForLoop (dir stop : Int) : Nat → Int → List Int
+  | 0, _ => []
+  | n + 1, i => if i = stop then [] else i :: grassForLoop dir stop n (i + dir)
+
+def grassFor (lo hi : Int) (inclusive : Bool) (fuel : Nat) : List Int :=
+  let dir : Int := if lo > hi then -1 else 1
+  let stop := if inclusive then hi + dir else hi
+  grassForLoop dir stop fuel lo
+
+theorem grassForLoop_up (stop : Int) : ∀ (n : Nat) (i : Int), i ≤ stop → (stop - i).toNat ≤ n →
+    grassForLoop 1 stop n i = (List.range (stop - i).toNat).map (fun (k : Nat) => i + (k : Int))
+  | 0, i, h1, h2 => by
+    have : (stop - i).toNat = 0 := by omega
+    simp [grassForLoop, this]
+  | n + 1, i, h1, h2 => by
+    unfold grassForLoop
+    by_cases e : i = stop
+    · subst e; simp
+    · simp only [e, if_false]
+      have hlt : i < stop := by omega
+      rw [grassForLoop_up stop n (i + 1) (by omega) (by omega)]
+      have : (stop - i).toNat = (stop - (i + 1)).toNat + 1 := by omega
+      rw [this, List.range_succ_eq_map]
+      simp only [List.map_cons, List.map_map]
+      congr 1
+      · simp
+      · apply List.map_congr_left; intro k _; simp; omega
+
+theorem grassForLoop_down (stop : Int) : ∀ (n : Nat) (i : Int), stop ≤ i → (i - stop).toNat ≤ n →
+    grassForLoop (-1) stop n i = (List.range (i - stop).toNat).map (fun (k : Nat) => i - (k : Int))
+  | 0, i, h1, h2 => by
+    have : (i - stop).toNat = 0 := by omega
+    simp [grassForLoop, this]
+  | n + 1, i, h1, h2 => by
+    unfold grassForLoop
+    by_cases e : i = stop
+    · subst e; simp
+    · simp only [e, if_false]
+      rw [grassForLoop_down stop n (i + -1) (by omega) (by omega)]
+      have : (i - stop).toNat = (i + -1 - stop).toNat + 1 := by omega
+      rw [this, List.range_succ_eq_map]
+      simp only [List.map_cons, List.map_map]
+      congr 1
+      · simp
+      · apply List.map_congr_left; intro k _; simp; omega
+
+/-- The loop as written in grass visits exactly the specified range (given enough iterations). -/
+theorem C03_for_grass_loop (lo hi : Int) (inclusive : Bool) (fuel : Nat)
+    (hf : (if lo ≤ hi then hi - lo else lo - hi).toNat + 1 ≤ fuel) :
+    grassFor lo hi inclusive fuel = forRange lo hi inclusive := by
+  unfold grassFor forRange
+  by_cases h : lo ≤ hi
+  · have hd : ¬ lo > hi := by omega
+    simp only [hd, if_false, h, if_true] at hf ⊢
+    cases inclusive
+    · simp only [Bool.false_eq_true, if_false]
+      rw [grassForLoop_up hi fuel lo h (by omega)]; simp
+    · simp only [if_true]
+      rw [grassForLoop_up (hi + 1) fuel lo (by omega) (by omega)]
+      have : (hi + 1 - lo).toNat = (hi - lo).toNat + 1 := by omega
+      rw [this]
+  · have hd : lo > hi := by omega
+    simp only [hd, if_true, h, if_false] at hf ⊢
+    cases inclusive
+    · simp only [Bool.false_eq_true, if_false]
+      rw [grassForLoop_down hi fuel lo (by omega) (by omega)]; simp
+    · simp only [if_true]
+      rw [grassForLoop_down (hi + -1) fuel lo (by omega) (by omega)]
+      have : (lo - (hi + -1)).toNat = (lo - hi).toNat + 1 := by omega
+      rw [this]
+
+end Grass.Eval
